@@ -67,6 +67,7 @@ stepD InvD.s_gSeek .gSeek => plainD
 stepD InvD.s_cWf .cWf => plainD
 stepD InvD.s_lCnt .lCnt => plainD
 stepD InvD.s_cCnt .cCnt => plainD
+stepD InvD.s_xClose .xClose => plainD
 stepD InvD.s_sIdxLen1 .sIdxLen1 => split at hs0 <;> plainD
 stepD InvD.s_sIdxGet .sIdxGet => split at hs0 <;> plainD
 stepD InvD.s_gIdxLen .gIdxLen => split at hs0 <;> plainD
@@ -327,6 +328,7 @@ theorem InvD.step {scripts : List (List Op)} {s s' : St} {i : Nat} (hA : InvA sc
     | fCntZero => exact InvD.s_fCntZero hA hB hC hD hp hpc hs
     | fWfZero => exact InvD.s_fWfZero hA hB hC hD hp hpc hs
     | fRel => exact InvD.s_fRel hA hB hC hD hp hpc hs
+    | xClose => exact InvD.s_xClose hA hB hC hD hp hpc hs
 
 theorem InvD.init (presize : Nat) (scripts : List (List Op)) : InvD (start (init presize scripts)) := by
   have hfull : FullV (start (Storage.init presize scripts)).index (start (Storage.init presize scripts)).cnt
